@@ -19,6 +19,8 @@ type Decl struct {
 	CallRet func() reflect.Value           // calls Ret, returns the received value with its static type T
 	CallIn  func(a reflect.Value) int      // calls In with a (the zero value when a is invalid)
 	NilAny  func() bool                    // any(Ret()) == nil  (for an interface T: "the result == nil" at the caller)
+	RetA     interface{}                   // func(id int) T
+	CallRetA func(id int) reflect.Value
 }
 
 // Multi is a corpus function with several results.
@@ -27,6 +29,8 @@ type Multi struct {
 	Outs []string
 	Fn   interface{}
 	Call func() []reflect.Value
+	FnA   interface{} // func(id int) (results...)
+	CallA func(id int) []reflect.Value
 }
 
 var (
